@@ -274,7 +274,7 @@ int main(int argc, char **argv)
 		ip += ain - strm.avail_in;
 		op += aout - strm.avail_out;
 		record("Ret", -1, ret, (long)strm.total_in, (long)strm.total_out, (long)(ain - strm.avail_in));
-		if (enc && (rnd() % 3 == 0 || ret == LZMA_STREAM_END)) {
+		if (rnd() % 3 == 0 || ret == LZMA_STREAM_END) {
 			uint64_t pin = 0, pout = 0;
 			lzma_get_progress(&strm, &pin, &pout);
 			record("Progress", -1, (long)pin, (long)pout, 0, 0);
